@@ -222,19 +222,6 @@ def d26_region(s, i, infl):
     return True
 
 
-def d28_region(s, i):
-    """a resume request was accepted while a with-items task was `pausing`: the task is not told
-    and stays `pausing`"""
-    td = tasks_def(s)
-    for j in range(i + 1):
-        o, r = s["ops"][j], s["replies"][j]
-        if o["op"] == "req" and o["status"] in ("running", "resuming") and not raised(r):
-            for t in (r.get("state") or {}).get("sequence", []):
-                if t.get("status") == "pausing" and td.get(t["id"], {}).get("with") is not None:
-                    return True
-    return False
-
-
 def d29_region(s, i):
     """a with-items task reached a completed status while one of its item actions was parked
     (paused/pending): the item's later report lands on a finished task"""
@@ -257,8 +244,6 @@ def region_of(s, i):
         return "D2"
     if d20_region(s, i):
         return "D20"
-    if d28_region(s, i):
-        return "D28"
     if d29_region(s, i):
         return "D29"
     return None
